@@ -162,12 +162,8 @@ def run(ctx):
     # encode_group_commitments covers id, hiding, binding of every entry (same rule as C05)
     enc = ctx.anchor(CORE + "round1::encode_group_commitments")
     if enc:
-        ve = FnView.get(P, enc)
-        et = ok_values(enc, ve)
-        et = et[0] if et else ("unknown", "")
-        item = next_item(arg(1))
-        for name, pr in (("identifier", lambda s: tfield(item, 0)(s)),
-                         ("hiding", lambda s: is_field(s, "SigningCommitments", "hiding") and mentions(s, item)),
-                         ("binding", lambda s: is_field(s, "SigningCommitments", "binding") and mentions(s, item))):
-            ctx.check(mentions(et, pr), "COVER", enc.key, "randomizer-depends-on-every-entry's:" + name,
+        _, pv = commitment_entry_parts(P)
+        parts = pv["parts"] if pv and pv["source"] == ("arg", 1) else []
+        for name in ("identifier", "hiding", "binding"):
+            ctx.check(any(entry_part(name)(p) for p in parts), "COVER", enc.key, "randomizer-depends-on-every-entry's:" + name,
                       "the randomizer no longer depends on every commitment entry's %s" % name, enc.loc)
